@@ -23,6 +23,13 @@ CHECKS['C16'] = ('exhaustive enumeration of all tables over the 8 row types (<=3
                  'Finite sub-domain enumerated completely (acceptance predicate, class-of-row table, positional indices); larger tables sampled.',
                  'Acceptance predicate is the statement of C16; string geo IDs in queries.', '6 C16')
 
+CHECKS['C08'] = ('Hypothesis RuleBasedStateMachine over set-x/set-y/clear-x/read histories; fresh-object model after every read and at teardown',
+                 'Stateful generated histories; every read compared with a freshly built object holding the same series.',
+                 'Same code on both sides (staleness only); value correctness is C04/C05.', '6 C08')
+CHECKS['C05'] = ('Hypothesis @given: closed-form reference, differential against tbr.TBR on a constructed experiment, metamorphic laws (2^k scaling, shifts, monotone/even in rho)',
+                 'Generated pretest series x parameters; three independent oracles (own closed form, the analysis code path, metamorphic relations).',
+                 'scipy t/F quantiles trusted; tolerances 1e-9 (closed form, conditioning-aware) and 1e-7 (differential).', '6 C05')
+
 PENDING = {}
 
 
